@@ -1435,7 +1435,7 @@ class Quaternion(np.ndarray):
         False
 
         """
-        return np.allclose(self.A, np.array([1.0, 0.0, 0.0, 0.0]))
+        return bool(np.isclose(self.w, 1.0) and np.allclose(self.v, 0.0))    # w and v honour the storage order
 
     def normalize(self) -> None:
         """Normalize the quaternion."""
